@@ -254,11 +254,12 @@ def run_steps_real(step_factories, desc, rows):
     return S.run_real(steps, desc, rows)
 
 
-def lazy_vs_staged(steps, desc, rows, real_lazy, rng):
+def lazy_vs_staged(steps, desc, rows, real_lazy, rng, facts=None):
     """(1) each step alone on the materialised output of the previous one; (2) regrouping into nested
     Flows / always-true conditionals; (3) results / process / datastream"""
     out = []
-    facts = [(lambda proc=proc, a=a: S.PROCS[proc].real(copy.deepcopy(a))) for proc, a in steps]
+    if facts is None:
+        facts = [(lambda proc=proc, a=a: S.PROCS[proc].real(copy.deepcopy(a))) for proc, a in steps]
     # (1) staged on the real code
     cur_desc, cur_rows = desc, rows
     staged = None
@@ -337,6 +338,47 @@ def lazy_vs_staged(steps, desc, rows, real_lazy, rng):
     if S.norm_result(via_ds) != S.norm_result(real_lazy):
         out.append(('api:datastream-differs', {'results': S.norm_result(real_lazy), 'datastream': S.norm_result(via_ds)}))
     return out
+
+
+# ------------------------------------------------------------------ a retaining step, then a step that drops its source
+
+def retain_then_drop_part(ctx):
+    """`duplicate(X)` / `join(X -> Y, source_delete=False)` keep working on X's rows while they stream; a later
+    `delete_resource(X)` drops X.  Lazily chained, the copy / the joined fields must be what the step-by-step
+    evaluation gives (every step takes effect on the full output of the previous one), in every regrouping and API."""
+    rep = ctx.report
+    rng = ctx.rng('retain-drop')
+    for i in range(ctx.n(40, 500)):
+        nres = rng.randint(1, 3)
+        resources, rows = [], []
+        for k in range(nres):
+            name = 'r%d' % k
+            resources.append({'name': name, 'fields': [('k', 'integer'), ('s', 'string'), ('v', 'integer')]})
+            rows.append([{'k': rng.choice([1, 2, 3]), 's': rng.choice(['a', 'b', None]), 'v': j}
+                         for j in range(rng.choice([0, 1, 3, 7] if i % 7 else [150]))])
+        desc = canon.make_descriptor(resources)
+        src = rng.randrange(nres)
+        sname = 'r%d' % src
+        sel = rng.choice([sname, src, [sname], '^%s$' % sname if False else sname])
+        middle = rng.choice([None, lambda: DF.add_field('m', 'integer', 7), lambda: DF.filter_rows(lambda r: r['v'] % 2 == 0)])
+        if i % 2 == 0 or nres == 1:
+            to_end = rng.random() < 0.5
+            kind = 'duplicate(to_end=%s)' % to_end
+            facts = [lambda: DF.duplicate(sname, 'copy', 'copy.csv', duplicate_to_end=to_end, batch_size=rng.choice([1, 1000]))]
+        else:
+            tgt = 'r%d' % rng.choice([k for k in range(nres) if k != src])
+            kind = 'join(source_delete=False)'
+            facts = [lambda: DF.join(sname, ['k'], tgt, ['k'], {'cnt': {'aggregate': 'count'}, 'first_s': {'name': 's', 'aggregate': 'first'}},
+                                     source_delete=False)]
+        if middle is not None:
+            facts.append(middle)
+        facts.append(lambda: DF.delete_resource(sel))
+        case = {'retain-then-drop': kind, 'middle': middle is not None, 'drop': repr(sel), 'rows': [len(r) for r in rows]}
+        real = S.run_real([f() for f in facts], desc, rows)
+        rep.case('retain-then-drop', case, nontrivial='ok' in real and any(rows[src]))
+        rep.hist('retain_then_drop', kind)
+        for sig, detail in lazy_vs_staged(None, desc, rows, real, rng, facts=facts):
+            rep.fail('retain-then-drop:' + sig, dict(case, desc=desc, data=canon._plain(rows)), detail)
 
 
 # ------------------------------------------------------------------ user callables and retaining steps (real code only)
@@ -554,6 +596,7 @@ def run(ctx):
     with quiet():
         dispatch_part(ctx)
     pipeline_part(ctx)
+    retain_then_drop_part(ctx)
     user_part(ctx)
     row_return_part(ctx)
 
